@@ -1,8 +1,8 @@
 (* C02 — executable comparison of what the real stack returned with the model
    (code 1 = differs) and with the spec (code >= 2 = spec false on the output). *)
-From Coq Require Import ZArith List Bool.
+From Coq Require Import ZArith List Bool String.
 Import ListNotations.
-From KD Require Import C02.Model C02.Spec.
+From KD Require Import C02.Model C02.Spec C02.AttrModel C02.AttrSpec.
 Open Scope Z_scope.
 
 Definition sample_eqb (a b : sample) : bool := (fst a =? fst b) && (snd a =? snd b).
@@ -47,7 +47,22 @@ Record obs := {
   o_dispose : list Z                    (* roots disposed by stack.dispose(), in order *)
 }.
 
-Definition case_t : Type := (stack * list Z * obs)%type.
+(* what was observed of attribute lookup / introspection on the same real stack (AttrModel.v) *)
+Record aobs := {
+  a_queries : list (string * ares);      (* getattr(top, name), called when it is a method / partial *)
+  a_fused : option (list Z);             (* fused_operations as group ids; None = RuntimeError *)
+  a_req : option bool;                   (* requires_propagate_ctx *)
+  a_coll : list Z;                       (* collators (ids) *)
+  a_wreach : list Z;                     (* nodes whose (_)worker_init_fn ran on top.worker_init_fn(0) *)
+  a_dispose : list Z;                    (* roots (uids) disposed by top.dispose() *)
+  a_with : list Z;                       (* roots disposed by leaving `with top:` *)
+  a_root : Z;                            (* uid of top.root_dataset *)
+  a_wrappers : list Z;                   (* uids of top.all_wrappers *)
+  a_haswrap : list (Z * bool);           (* top.has_wrapper(<node uid>) for every node of the stack *)
+  a_oftype1 : list (Z * (option nat + unit))   (* get_wrapper_of_type(T): None / position in all_wrappers / AssertionError *)
+}.
+
+Definition case_t : Type := (stack * list Z * obs * astack * aobs)%type.
 
 Definition model_agrees (s : stack) (ks : list Z) (o : obs) : bool :=
   opt_eqb Z.eqb (slen s) (o_len o)
@@ -67,9 +82,9 @@ Definition spec_holds (s : stack) (ks : list Z) (o : obs) : bool :=
   forallb (fun '(k, it) => if in_dom d k then opt_eqb sample_eqb (at_ d k) it else true) (combine ks (o_items o))
   (* len = size of the map *)
   && (if is_fin d then opt_eqb Z.eqb (Some (zlen (map_of s))) (o_len o) else true)
-  (* bulk accessor = the map (where getall is offered and no balanced concat is below) *)
-  && (if o_hasall o && no_balanced s && lists_ok s then gres_is (o_getall o) (map_of s) else true)
-  && (if is_fin d && (negb (o_hasall o) || (no_balanced s && lists_ok s)) then gres_is (o_util o) (map_of s) else true)
+  (* bulk accessor = the map: the direct call wherever getall is offered, utils.getall on every stack with a length *)
+  && (if o_hasall o && lists_ok s then gres_is (o_getall o) (map_of s) else true)
+  && (if is_fin d && (negb (o_hasall o) || lists_ok s) then gres_is (o_util o) (map_of s) else true)
   (* every root below is disposed *)
   && list_eqb Z.eqb (roots s) (o_dispose o)
   (* linear chains resolve to their root and list their layers *)
@@ -82,10 +97,78 @@ Definition spec_holds (s : stack) (ks : list Z) (o : obs) : bool :=
       | _ => true
       end).
 
+(* ---------------- attribute lookup / introspection ---------------- *)
+Definition ares_eqb (a b : ares) : bool :=
+  match a, b with
+  | AFound u k, AFound v l => (u =? v) && Nat.eqb k l
+  | AMissing, AMissing => true
+  | AAssert, AAssert => true
+  | ASpecial, ASpecial => true
+  | _, _ => false
+  end.
+
+Definition wot_eqb (a b : option nat + unit) : bool :=
+  match a, b with
+  | inl x, inl y => opt_eqb Nat.eqb x y
+  | inr _, inr _ => true
+  | _, _ => false
+  end.
+
+Definition attr_model_agrees (s : stack) (a : astack) (o : aobs) : bool :=
+  forallb (fun '(nm, r) => ares_eqb (aquery a nm) r) (a_queries o)
+  && opt_eqb (list_eqb Z.eqb) (afused a) (a_fused o)
+  && opt_eqb Bool.eqb (areq a) (a_req o)
+  && list_eqb Z.eqb (acoll a) (a_coll o)
+  && list_eqb Z.eqb (awreach a) (a_wreach o)
+  && list_eqb Z.eqb (adispose a) (a_dispose o)
+  && list_eqb Z.eqb (adispose a) (a_with o)
+  && (aroot a =? a_root o)
+  && list_eqb Z.eqb (awrappers a) (a_wrappers o)
+  && forallb (fun '(w, b) => Bool.eqb (ahas_wrapper w a) b) (a_haswrap o)
+  && forallb (fun '(t, r) => wot_eqb (wrapper_of_type (wrappers_of_type t s)) r) (a_oftype1 o).
+
+(* the getdim_ alias of a chain no layer of which defines the alias name itself *)
+Definition chain_dim_spec (ls : list alayer) (r : node) (nm : string) : option ares :=
+  if forallb (fun n => match own n nm with None => true | Some _ => false end) (nodes_of ls r)
+  then Some (shape1 (nearest (nodes_of (skip_to_kd ls) r) ("getshape_" ++ dim_kind nm)))
+  else None.
+
+Definition attr_spec_holds (s : stack) (a : astack) (o : aobs) : bool :=
+  (* any nesting: dispose (directly and through the context manager) reaches every root, worker_init_fn every
+     KDWrapper and every root, once, in pre-order *)
+  list_eqb Z.eqb (uids_of_kind (Nat.eqb 0) a) (a_dispose o)
+  && list_eqb Z.eqb (uids_of_kind (Nat.eqb 0) a) (a_with o)
+  && list_eqb Z.eqb (uids_of_kind (fun k => Nat.eqb k 0 || Nat.eqb k 1) a) (a_wreach o)
+  && match aunbuild a with
+     | None => true
+     | Some (ls, r) =>
+         (* linear chains: the nearest provider answers; getdim_ = getshape_[0] seen from the first KDDataset layer *)
+         forallb (fun '(nm, res) =>
+                    if plain_name nm then ares_eqb (nearest (nodes_of ls r) nm) res
+                    else if is_getdim nm then match chain_dim_spec ls r nm with
+                                              | Some e => ares_eqb e res
+                                              | None => true
+                                              end
+                    else true) (a_queries o)
+         && (a_root o =? n_uid r)
+         && list_eqb Z.eqb (map (fun l => n_uid (snd l)) ls) (a_wrappers o)
+         && forallb (fun '(w, b) => Bool.eqb (existsb (fun l => n_uid (snd l) =? w) ls) b) (a_haswrap o)
+         && list_eqb Z.eqb (bo_coll (n_bo r)) (a_coll o)
+         && (if has_mode a then true
+             else opt_eqb (list_eqb Z.eqb) (Some (bo_fo (n_bo r) ++ flat_map (fun l => if is_kd l then bo_fo (n_bo (snd l)) else []) (rev ls))) (a_fused o)
+                  && opt_eqb Bool.eqb (Some (existsb (fun l => is_kd l && bo_req (n_bo (snd l))) ls || bo_req (n_bo r))) (a_req o))
+         && (let tags := map ltag (fst (unbuild s)) in
+             forallb (fun '(t, res) =>
+                        wot_eqb (match positions t 0 tags with [] => inl None | [p] => inl (Some p) | _ => inr tt end) res)
+                     (a_oftype1 o))
+     end.
+
 Definition check (c : case_t) : nat :=
-  let '(s, ks, o) := c in
-  if negb (Bool.eqb (ctor_ok s) (o_ctor o)) then 1%nat
+  let '(s, ks, o, a, ao) := c in
+  if negb (Bool.eqb (ctor_ok s && actor_ok a) (o_ctor o)) then 1%nat
   else if negb (o_ctor o) then 0%nat
   else if valid s && negb (spec_holds s ks o) then 2%nat
+  else if negb (attr_spec_holds s a ao) then 2%nat
   else if negb (model_agrees s ks o) then 1%nat
+  else if negb (attr_model_agrees s a ao) then 1%nat
   else 0%nat.
